@@ -392,20 +392,20 @@ theorem subRun_QInv {i : ι} {s : Sub ι μ} (hwatch : s.watch = some i) (h : QI
 
 /-- The consequences of the invariant the property theorems state: the view, well-formedness of what
 was handed on, and the view at quiescence. -/
-theorem SInv.facts {s0 : View ι μ} {sd : List (Change ι μ)} {c : SCfg ι μ} (h : SInv s0 sd c)
-    (hsd : WFHist (View.empty : View ι μ) sd) (hs0 : fold sd (View.empty : View ι μ) = s0) :
-    fold (c.out ++ c.seeds ++ c.p.inHand.toList ++ c.p.st.pending) (View.empty : View ι μ)
+theorem SInv.facts {b s0 : View ι μ} {sd : List (Change ι μ)} {c : SCfg ι μ} (h : SInv s0 sd c)
+    (hsd : WFHist b sd) (hs0 : fold sd b = s0) :
+    fold (c.out ++ c.seeds ++ c.p.inHand.toList ++ c.p.st.pending) b
         = fold c.p.received s0 ∧
-    WFHist (View.empty : View ι μ) c.out ∧
+    WFHist b c.out ∧
     (c.seeds = [] → c.p.inHand = none → c.p.st.pending = [] →
-        fold c.out (View.empty : View ι μ) = fold c.p.received s0) := by
+        fold c.out b = fold c.p.received s0) := by
   have hout := h.pinv.out
   rw [List.filterMap_some] at hout
   have hview := h.pinv.inv.view
   have hwf := h.pinv.inv.wf
   simp only at hview hwf
   rw [← hout] at hview hwf
-  have htot : fold (c.out ++ c.seeds ++ c.p.inHand.toList ++ c.p.st.pending) (View.empty : View ι μ)
+  have htot : fold (c.out ++ c.seeds ++ c.p.inHand.toList ++ c.p.st.pending) b
       = fold c.p.received s0 := by
     rw [h.total, fold_append, hs0, hview]
   refine ⟨htot, ?_, ?_⟩
@@ -551,5 +551,195 @@ theorem VInv_subscribed {α : Type} (E : Option α → α → Bool) (F : α → 
     have := congrArg List.length heq
     simp at this
     omega
+
+/-! ### draining: a consumer that keeps receiving reaches quiescence -/
+
+/-- one round of a receiving consumer of a `Collection.Pull` subscriber: the forwarder takes what it
+can, the consumer receives what is offered -/
+def drainMoves {α : Type} : Nat → List (QMove α)
+  | 0 => []
+  | n + 1 => .take :: .deliver :: drainMoves n
+
+theorem qinputs_drainMoves {α : Type} (n : Nat) : qinputs (drainMoves n : List (QMove α)) = [] := by
+  induction n with
+  | zero => rfl
+  | succ n ih => simpa [drainMoves, qinputs] using ih
+
+theorem qinputs_append {α : Type} (xs ys : List (QMove α)) : qinputs (xs ++ ys) = qinputs xs ++ qinputs ys := by
+  induction xs with
+  | nil => rfl
+  | cons m xs ih => cases m <;> simp [qinputs, ih]
+
+theorem subRun_append (s : Sub ι μ) (xs ys : List (QMove (Change ι μ))) :
+    subRun s (xs ++ ys) = subRun (subRun s xs) ys := by
+  simp [subRun, List.foldl_append]
+
+/-- what is still on its way to the consumer -/
+def SCfg.backlog (c : SCfg ι μ) : Nat :=
+  c.seeds.length + c.p.st.pending.length + (if c.p.inHand.isSome then 1 else 0)
+
+theorem backlog_round (c : SCfg ι μ) :
+    (sstep (sstep c .take) .deliver).backlog = c.backlog - 1 := by
+  rcases c with ⟨seeds, seeded, ⟨⟨pending⟩, taken, inHand, delivered, received⟩⟩
+  cases seeds with
+  | cons s rest => cases inHand <;> simp [sstep, SCfg.backlog] <;> omega
+  | nil =>
+    cases inHand with
+    | some d => simp [sstep, pstep, SCfg.backlog]
+    | none =>
+      cases pending with
+      | nil => simp [sstep, pstep, emit, SCfg.backlog]
+      | cons p ps => simp [sstep, pstep, emit, SCfg.backlog]
+
+omit [DecidableEq ι] in
+theorem backlog_zero {c : SCfg ι μ} (h : c.backlog = 0) :
+    c.seeds = [] ∧ c.p.inHand = none ∧ c.p.st.pending = [] := by
+  rcases c with ⟨seeds, seeded, ⟨⟨pending⟩, taken, inHand, delivered, received⟩⟩
+  cases seeds <;> cases pending <;> cases inHand <;> simp_all [SCfg.backlog]
+
+theorem subRun_drain_backlog (s : Sub ι μ) (hw : s.watch = none) (n : Nat) :
+    (subRun s (drainMoves n)).q.s.backlog = s.q.s.backlog - n := by
+  induction n generalizing s with
+  | zero => simp [drainMoves, subRun_nil]
+  | succ n ih =>
+    rcases s with ⟨w, q⟩
+    simp only at hw
+    subst hw
+    simp only [drainMoves, subRun_cons]
+    rw [ih _ (by rfl)]
+    have : (subStep (subStep (⟨none, q⟩ : Sub ι μ) .take) .deliver).q.s = sstep (sstep q.s .take) .deliver := rfl
+    rw [this, backlog_round]
+    omega
+
+/-! Value -/
+theorem vdrain_quiet {α : Type} (E : Option α → α → Bool) (F : α → α) (c : VCfg α) :
+    let c' := vrunF E F c [.take, .deliver, .take, .deliver]
+    c'.slot = none ∧ c'.inHand = none := by
+  rcases c with ⟨slot, last, inHand, delivered, received⟩
+  cases inHand with
+  | some d =>
+    cases slot with
+    | none => simp [vrunF, vstepF]
+    | some v =>
+      by_cases hE : E last (F v) <;> simp [vrunF, vstepF, hE]
+  | none =>
+    cases slot with
+    | none => simp [vrunF, vstepF]
+    | some v =>
+      by_cases hE : E last (F v) <;> simp [vrunF, vstepF, hE]
+
+theorem vrunF_append {α : Type} (E : Option α → α → Bool) (F : α → α) (c : VCfg α) (xs ys : List (PMove α)) :
+    vrunF E F c (xs ++ ys) = vrunF E F (vrunF E F c xs) ys := by
+  simp [vrunF, List.foldl_append]
+
+theorem pinputs_append_drain {α : Type} (ms : List (PMove α)) :
+    pinputs (ms ++ [.take, .deliver, .take, .deliver]) = pinputs ms := by
+  induction ms with
+  | nil => rfl
+  | cons m ms ih => cases m <;> simp [pinputs, ih]
+
+/-! ### draining a PullID subscriber -/
+
+def qdrainMoves {α : Type} : Nat → List (QMove α)
+  | 0 => []
+  | n + 1 => .take :: .hand :: .deliver :: qdrainMoves n
+
+theorem qinputs_qdrainMoves {α : Type} (n : Nat) : qinputs (qdrainMoves n : List (QMove α)) = [] := by
+  induction n with
+  | zero => rfl
+  | succ n ih => simpa [qdrainMoves, qinputs] using ih
+
+def QCfg.backlog (c : QCfg ι μ) : Nat := c.s.backlog + (if c.hand2.isSome then 1 else 0)
+
+def qround (i : ι) (c : QCfg ι μ) : QCfg ι μ := qstep i (qstep i (qstep i c .take) .hand) .deliver
+
+theorem qstep_ended_mono (i : ι) (c : QCfg ι μ) (m : QMove (Change ι μ)) (h : c.ended = true) :
+    (qstep i c m).ended = true := by
+  cases m with
+  | recv e => exact h
+  | take => simp [qstep, h]
+  | hand =>
+    simp only [qstep]
+    cases c.hand2 <;> simp [h]
+  | deliver =>
+    simp only [qstep]
+    cases c.hand2 <;> simp [h]
+
+theorem qround_progress (i : ι) (c : QCfg ι μ) (h : c.ended = false) :
+    (qround i c).ended = true ∨ (qround i c).backlog ≤ c.backlog - 1 := by
+  rcases c with ⟨⟨seeds, seeded, ⟨⟨pending⟩, taken, inHand, delivered, received⟩⟩, hand2, ended, out⟩
+  simp only at h
+  subst h
+  cases hand2 with
+  | some v =>
+    right
+    cases seeds <;> cases inHand <;> cases pending <;>
+      simp [qround, qstep, sstep, pstep, emit, SCfg.offer, QCfg.backlog, SCfg.backlog] <;> omega
+  | none =>
+    cases seeds with
+    | cons s rest =>
+      simp only [qround, qstep, sstep, SCfg.offer, Bool.false_eq_true, if_false]
+      rcases hacc : pullIdAccept i s with ⟨x, e⟩
+      cases x <;> cases e <;> cases inHand <;>
+        simp [QCfg.backlog, SCfg.backlog] <;> omega
+    | nil =>
+      cases inHand with
+      | some d =>
+        simp only [qround, qstep, sstep, pstep, SCfg.offer, Bool.false_eq_true, if_false]
+        rcases hacc : pullIdAccept i d with ⟨x, e⟩
+        cases x <;> cases e <;> simp [QCfg.backlog, SCfg.backlog] <;> omega
+      | none =>
+        cases pending with
+        | nil => simp [qround, qstep, sstep, pstep, emit, SCfg.offer, QCfg.backlog, SCfg.backlog]
+        | cons p ps =>
+          simp only [qround, qstep, sstep, pstep, emit, SCfg.offer, Bool.false_eq_true, if_false]
+          rcases hacc : pullIdAccept i p with ⟨x, e⟩
+          cases x <;> cases e <;> simp [QCfg.backlog, SCfg.backlog] <;> omega
+
+def qrounds (i : ι) : Nat → QCfg ι μ → QCfg ι μ
+  | 0, c => c
+  | n + 1, c => qrounds i n (qround i c)
+
+theorem subRun_qdrain {i : ι} (s : Sub ι μ) (hw : s.watch = some i) (n : Nat) :
+    (subRun s (qdrainMoves n)).q = qrounds i n s.q := by
+  induction n generalizing s with
+  | zero => rfl
+  | succ n ih =>
+    rcases s with ⟨w, q⟩
+    simp only at hw
+    subst hw
+    simp only [qdrainMoves, subRun_cons]
+    rw [ih _ (by rfl)]
+    rfl
+
+theorem qround_ended (i : ι) (c : QCfg ι μ) (h : c.ended = true) : (qround i c).ended = true :=
+  qstep_ended_mono i _ _ (qstep_ended_mono i _ _ (qstep_ended_mono i _ _ h))
+
+theorem qrounds_ended (i : ι) (n : Nat) (c : QCfg ι μ) (h : c.ended = true) : (qrounds i n c).ended = true := by
+  induction n generalizing c with
+  | zero => exact h
+  | succ n ih => exact ih _ (qround_ended i c h)
+
+theorem qrounds_drain (i : ι) (n : Nat) (c : QCfg ι μ) (h : c.backlog ≤ n) :
+    (qrounds i n c).ended = true ∨ (qrounds i n c).backlog = 0 := by
+  induction n generalizing c with
+  | zero => exact Or.inr (by simp only [qrounds]; omega)
+  | succ n ih =>
+    simp only [qrounds]
+    cases he : c.ended with
+    | true => exact Or.inl (qrounds_ended i n _ (qround_ended i c he))
+    | false =>
+      rcases qround_progress i c he with h1 | h1
+      · exact Or.inl (qrounds_ended i n _ h1)
+      · exact ih _ (by omega)
+
+omit [DecidableEq ι] in
+theorem qbacklog_zero {c : QCfg ι μ} (h : c.backlog = 0) :
+    c.hand2 = none ∧ c.s.seeds = [] ∧ c.s.p.inHand = none ∧ c.s.p.st.pending = [] := by
+  have h1 : c.s.backlog = 0 := by simp only [QCfg.backlog] at h; omega
+  refine ⟨?_, backlog_zero h1⟩
+  cases hh : c.hand2 with
+  | none => rfl
+  | some v => simp [QCfg.backlog, hh] at h
 
 end ScVerif.C09
